@@ -13,6 +13,7 @@ use std::sync::OnceLock;
 type EncFn = Box<dyn Fn(&Typed, usize) -> postcard::Result<Vec<u8>> + Sync + Send>;
 type DecFn = Box<dyn Fn(&Shape, &[u8]) -> Result<postcard::Result<(Value, usize, bool)>, String> + Sync + Send>;
 type FromFn = Box<dyn Fn(&Shape, &[u8]) -> Result<postcard::Result<Value>, String> + Sync + Send>;
+type ReaderFn = Box<dyn Fn(&Shape, &[u8], usize) -> Result<postcard::Result<Value>, String> + Sync + Send>;
 
 pub struct CrcApi {
     pub params: Params,
@@ -24,6 +25,8 @@ pub struct CrcApi {
     /// (value, remainder length, remainder is a suffix of the input by pointer)
     pub take: DecFn,
     pub from: FromFn,
+    /// CRC modifier over the std::io reader storage with a scratch buffer of the given size
+    pub from_reader: ReaderFn,
 }
 
 macro_rules! api {
@@ -53,6 +56,25 @@ macro_rules! api {
                 from: Box::new(move |shape, input| {
                     let (r, log) = with_shape(shape, || no_panic(|| postcard::de_flavors::crc::$from::<Dyn>(input, c.digest())));
                     let r = r?;
+                    if log.skipped_zero_width {
+                        return Err("skip".into());
+                    }
+                    Ok(r.map(|d| d.0))
+                }),
+                from_reader: Box::new(move |shape, input, scratch_len| {
+                    let mut scratch = vec![0u8; scratch_len];
+                    let (r, log) = with_shape(shape, || {
+                        no_panic(|| {
+                            use serde::Deserialize;
+                            let rd = crate::iodoubles::ChunkReader::new(input, crate::iodoubles::Schedule { chunks: vec![3, 1, 8], interrupt_every: 0 }, crate::iodoubles::Fault::None);
+                            let flav = postcard::de_flavors::crc::CrcModifier::new(postcard::de_flavors::io::io::IOReader::new(rd, &mut scratch[..]), c.digest());
+                            let mut de = postcard::Deserializer::from_flavor(flav);
+                            let v = Dyn::deserialize(&mut de)?;
+                            de.finalize()?;
+                            Ok(v)
+                        })
+                    });
+                    let r: postcard::Result<Dyn> = r?;
                     if log.skipped_zero_width {
                         return Err("skip".into());
                     }
@@ -137,6 +159,23 @@ pub fn check_forward(ai: usize, shape: &Shape, value: &Value, tail: &[u8], l: &m
     match (api.from)(shape, &input) {
         Ok(Ok(v)) if v == *value => {}
         other => return Err(fail("crc-forward", format!("from_bytes_crc [{}]: {:?}", api.params.name, other), cjv())),
+    }
+    // the same modifier over reader storage: a scratch buffer that holds what the message routes through it plus the
+    // checksum suffices (and a roomy one does, too)
+    let need = scratch_need(shape, value) + api.nbytes;
+    for sl in [need, need + 1, input.len() + 32] {
+        l.eval();
+        match (api.from_reader)(shape, &input, sl) {
+            Err(s) if s == "skip" => break,
+            Ok(Ok(v)) if v == *value => {}
+            other => {
+                return Err(fail(
+                    "crc-forward",
+                    format!("CrcModifier over IOReader [{}] with {} scratch bytes ({} needed for the message + {} for the checksum): {:?}", api.params.name, sl, need - api.nbytes, api.nbytes, other),
+                    cjv(),
+                ))
+            }
+        }
     }
     // a correct checksum at the *end* of a longer buffer proves nothing about the bytes the value
     // consumed: plain ++ slack ++ crc(plain ++ slack) must satisfy the converse like any other input
